@@ -683,6 +683,25 @@ Qed.
 Lemma suff_pos g st W : suff g st W -> exists g1, g = Datatypes.S g1.
 Proof. unfold suff. pose proof (rank_le st). destruct g; [lia|eauto]. Qed.
 
+Lemma aparse_S_init g cl W : aparse (Datatypes.S g) HT_INIT cl W =
+  match l_init W with
+  | PrOk n => aparse g HT_HEADERS 0 (dropZ n W) | PrNeed => (ANeed HT_INIT cl W, false)
+  | PrErr => (AErr, false) | PrFault => (AFuel, false) end.
+Proof. reflexivity. Qed.
+Lemma aparse_S_headers g cl W : aparse (Datatypes.S g) HT_HEADERS cl W =
+  match l_header W cl with
+  | (PrOk n, cl', stale) =>
+      let '(r, s2) := aparse g (if n =? 2 then HT_BODY else HT_HEADERS) cl' (dropZ n W) in (r, stale || s2)
+  | (PrNeed, cl', stale) => (ANeed HT_HEADERS cl' W, stale)
+  | (PrErr, _, stale) => (AErr, stale) | (PrFault, _, stale) => (AFuel, stale) end.
+Proof. reflexivity. Qed.
+Lemma aparse_S_other g st cl W : st <> HT_INIT -> st <> HT_HEADERS -> st <> HT_BODY ->
+  aparse (Datatypes.S g) st cl W = if st =? HT_CONNECTED then (AConn cl W, false) else (AErr, false).
+Proof.
+  intros. simpl. destruct (Z.eqb_spec st HT_INIT); [contradiction|]. destruct (Z.eqb_spec st HT_HEADERS); [contradiction|].
+  destruct (Z.eqb_spec st HT_BODY); [contradiction|]. reflexivity.
+Qed.
+
 Lemma aparse_stable : forall f st cl U r, 0 <= cl -> aparse f st cl U = (r, false) -> r <> AFuel ->
   forall V g, suff g st (U ++ V) ->
   match r with
@@ -699,23 +718,23 @@ Proof.
   pose proof (lenZ_length U) as LLU. pose proof (lenZ_length V) as LLV.
   unfold suff in SG. rewrite app_length in SG.
   destruct (Z.eq_dec st HT_INIT) as [E0|E0].
-  { subst st. rewrite rank_init in SG. simpl in E. simpl aparse at 1. pose proof (l_init_ok U) as K.
+  { subst st. rewrite rank_init in SG. rewrite aparse_S_init in E. rewrite !aparse_S_init. pose proof (l_init_ok U) as K.
     pose proof (l_init_ext U V _ eq_refl) as X.
     destruct (l_init U) as [| | |n]; try contradiction.
-    - inversion E; subst r. intros g' SG'. rewrite (aparse_fuel_eq g' (Datatypes.S g1)); auto.
+    - inversion E; subst r. intros g' SG'. rewrite <- (aparse_S_init g1 cl (U ++ V)). rewrite (aparse_fuel_eq g' (Datatypes.S g1)); auto.
       + apply rrel_refl.
       + unfold suff. rewrite app_length, rank_init. lia.
     - inversion E; subst r. rewrite X. reflexivity.
     - rewrite X. rewrite dropZ_app_l by lia.
-      apply (IH _ _ _ _ ltac:(lia) E N V g1). unfold suff. rewrite app_length, rank_headers, length_dropZ by lia. lia. }
+      assert (Z00 : 0 <= 0) by lia.
+      apply (IH HT_HEADERS 0 (dropZ n U) r Z00 E N V g1). unfold suff. rewrite app_length, rank_headers, length_dropZ by lia. lia. }
   destruct (Z.eq_dec st HT_HEADERS) as [E1|E1].
-  { subst st. rewrite rank_headers in SG. simpl in E. simpl aparse at 1.
-    change (HT_HEADERS =? HT_INIT) with false in *. change (HT_HEADERS =? HT_HEADERS) with true in *. cbv iota in *.
+  { subst st. rewrite rank_headers in SG. rewrite aparse_S_headers in E. rewrite !aparse_S_headers.
     pose proof (l_header_ok U cl C) as K.
     destruct (l_header U cl) as [[pr cl'] stale] eqn:LH.
     destruct pr as [| | |n]; try contradiction.
     - (* need more *)
-      inversion E; subst r stale. intros g' SG'.
+      inversion E; subst r stale. intros g' SG'. rewrite <- (aparse_S_headers g1 cl (U ++ V)).
       rewrite (aparse_fuel_eq g' (Datatypes.S g1)); auto.
       2:{ unfold suff. rewrite app_length, rank_headers. lia. }
       apply aparse_insens. destruct (need_cl _ _ _ _ LH) as [->|CL]; [left; reflexivity|].
@@ -744,8 +763,91 @@ Proof.
       destruct (Z.leb_spec cl (lenZ U + lenZ V)); destruct (Z.leb_spec (cl - lenZ U) (lenZ V)); try lia.
       + rewrite dropZ_app_r by lia. apply rrel_refl.
       + replace (cl - (lenZ U + lenZ V)) with (cl - lenZ U - lenZ V) by lia. apply rrel_refl. }
-  simpl in E. simpl aparse at 1.
-  destruct (Z.eqb_spec st HT_INIT); [contradiction|]. destruct (Z.eqb_spec st HT_HEADERS); [contradiction|].
-  destruct (Z.eqb_spec st HT_BODY); [contradiction|].
+  rewrite aparse_S_other in E by auto. rewrite !aparse_S_other by auto.
   destruct (st =? HT_CONNECTED); inversion E; subst r; reflexivity.
+Qed.
+
+(** * Stage C': two rings with the same fill and the same visible bytes parse alike *)
+Section Same.
+Variables (buf : list Z) (L pos : Z) (buf' : list Z) (L' pos' fill : Z).
+Hypothesis Lpos : 0 < L.  Hypothesis Lbuf : lenZ buf = L.
+Hypothesis Lpos' : 0 < L'. Hypothesis Lbuf' : lenZ buf' = L'.
+Hypothesis VIEW : forall p, 0 <= p < fill -> gb buf L pos p = gb buf' L' pos' p.
+
+Lemma eat_ws_same : forall fuel p, 0 <= p -> eat_ws buf L pos fill fuel p = eat_ws buf' L' pos' fill fuel p.
+Proof.
+  induction fuel as [|f IH]; intros p P; simpl; auto.
+  destruct (Z.ltb_spec p fill); auto. rewrite <- VIEW by lia.
+  destruct (gb buf L pos p) as [c|]; auto. destruct (c =? 32); auto. apply IH. lia.
+Qed.
+Lemma skip_line_same : forall fuel p, 0 <= p -> skip_line buf L pos fill fuel p = skip_line buf' L' pos' fill fuel p.
+Proof.
+  induction fuel as [|f IH]; intros p P; simpl; auto.
+  destruct (Z.ltb_spec (p + 1) fill); auto. rewrite <- !VIEW by lia.
+  destruct (gb buf L pos p) as [c|]; auto. destruct (c =? 13); auto.
+  destruct (gb buf L pos (p + 1)) as [c'|]; auto. destruct (c' =? 10); auto. apply IH. lia.
+Qed.
+Lemma match_ci_same : forall pat p, 0 <= p -> p + lenZ pat <= fill ->
+  match_ci buf L pos p pat = match_ci buf' L' pos' p pat.
+Proof.
+  induction pat as [|c t IH]; intros p P Q; simpl; auto. rewrite lenZ_cons in Q. pose proof (lenZ_nonneg t).
+  rewrite <- VIEW by lia. destruct (gb buf L pos p) as [x|]; auto.
+  destruct ((x =? c) || ((97 <=? c) && (c <=? 122) && (x =? c - 32))); auto. apply IH; lia.
+Qed.
+Lemma digits_same : forall fuel p cl r, 0 <= p ->
+  digits buf L pos fill fuel p cl false = (r, false) -> digits buf' L' pos' fill fuel p cl false = (r, false).
+Proof.
+  induction fuel as [|f IH]; intros p cl r P E; simpl in *; auto.
+  destruct (Z.leb_spec fill p) as [ST|ST]; simpl in *.
+  { exfalso.
+    assert (T : forall f0 p0 cl0, snd (digits buf L pos fill f0 p0 cl0 true) = true).
+    { induction f0; intros; simpl; auto. destruct (gb buf L pos p0); simpl; auto.
+      destruct (z =? 13); simpl; auto. destruct (negb (is_digit z)); simpl; auto.
+      destruct (_ || _); simpl; auto. destruct (fill <? p0 + 1); simpl; auto. }
+    destruct (gb buf L pos p) as [c|]; [|inversion E].
+    destruct (c =? 13); [inversion E|]. destruct (negb (is_digit c)); [inversion E|].
+    destruct (_ || _); [inversion E|]. destruct (fill <? p + 1); [inversion E|].
+    pose proof (T f (p + 1) (cl * 10 + (c - 48))) as T'. rewrite E in T'. discriminate T'. }
+  rewrite <- VIEW by lia. destruct (gb buf L pos p) as [c|]; auto.
+  destruct (c =? 13); auto. destruct (negb (is_digit c)); auto.
+  destruct ((MAXSIZE / 10 <? cl) || (MAXSIZE - (c - 48) <? cl * 10)); auto.
+  destruct (fill <? p + 1); auto. apply IH; auto; lia.
+Qed.
+Lemma hdr_finish_same p cl st : 0 <= p ->
+  hdr_finish buf L pos fill p cl st = hdr_finish buf' L' pos' fill p cl st.
+Proof. intros. unfold hdr_finish. rewrite skip_line_same by auto. reflexivity. Qed.
+
+Lemma parse_header_same cl r cl1 : parse_header buf L pos fill cl = (r, cl1, false) ->
+  parse_header buf' L' pos' fill cl = (r, cl1, false).
+Proof.
+  unfold parse_header. cbv zeta. intros E.
+  destruct (Z.ltb_spec 15 fill); [|rewrite <- hdr_finish_same by lia; exact E].
+  rewrite <- (match_ci_same CONTENT_LENGTH 0) by (change (lenZ CONTENT_LENGTH) with 15; lia).
+  destruct (match_ci buf L pos 0 CONTENT_LENGTH) as [| | |[|]]; auto; [|rewrite <- hdr_finish_same by lia; exact E].
+  rewrite <- eat_ws_same by lia.
+  pose proof (eat_ws_ok buf L pos fill Lpos Lbuf (fuel_of fill) 15 ltac:(lia) ltac:(unfold fuel_of; lia)) as B.
+  destruct (eat_ws buf L pos fill (fuel_of fill) 15) as [| | |p]; auto.
+  destruct (digits buf L pos fill (fuel_of fill) p 0 false) as [dr st] eqn:D.
+  assert (st = false).
+  { destruct dr; try (inversion E; auto; fail).
+    unfold hdr_finish in E. destruct (skip_line buf L pos fill (fuel_of fill) p0); try (inversion E; auto; fail).
+    destruct (fill <=? a + 1); inversion E; auto. }
+  subst st. assert (Pp : 0 <= p) by lia. rewrite (digits_same (fuel_of fill) p 0 dr Pp D).
+  destruct dr; auto. rewrite <- hdr_finish_same; auto.
+  pose proof (digits_ok buf L pos fill Lpos Lbuf (fuel_of fill) p 0 false ltac:(lia) ltac:(lia) ltac:(unfold fuel_of; lia)) as DK.
+  rewrite D in DK. simpl in DK. lia.
+Qed.
+End Same.
+
+Lemma parse_init_same buf L pos buf' L' pos' fill :
+  0 < L -> lenZ buf = L -> 0 < L' -> lenZ buf' = L' ->
+  (forall p, 0 <= p < fill -> gb buf L pos p = gb buf' L' pos' p) ->
+  parse_init buf L pos fill = parse_init buf' L' pos' fill.
+Proof.
+  intros A B A' B' V.
+  pose proof (parse_init_ext buf L pos fill buf' L' pos' fill A B A' B' (Z.le_refl _) V _ eq_refl) as X.
+  assert (V' : forall p, 0 <= p < fill -> gb buf' L' pos' p = gb buf L pos p) by (intros; symmetry; auto).
+  pose proof (parse_init_ext buf' L' pos' fill buf L pos fill A' B' A B (Z.le_refl _) V' _ eq_refl) as Y.
+  pose proof (parse_init_ok buf L pos fill A B) as K. pose proof (parse_init_ok buf' L' pos' fill A' B') as K'.
+  destruct (parse_init buf L pos fill); destruct (parse_init buf' L' pos' fill); try contradiction; auto; congruence.
 Qed.
